@@ -585,7 +585,7 @@ impl<'a> Gen<'a> {
                         }
                         (Item::Enum(s), Take::Item { kind, name }) if kind == "enum" && s.ident == name => {
                             rules::clean_attrs(&mut s.attrs, &mut self.rules);
-                            if unit.no_structural.contains(name) { rules::strip_derives(&mut s.attrs, &["Structural", "PartialEq", "Eq"]); }
+                            if unit.no_structural.contains(name) { rules::strip_derives(&mut s.attrs, &["Structural", "PartialEq", "Eq", "Clone"]); }
                             for v in s.variants.iter_mut() { rules::clean_attrs(&mut v.attrs, &mut self.rules); for f in v.fields.iter_mut() { rules::clean_attrs(&mut f.attrs, &mut self.rules); } }
                             s.vis = parse_quote!(pub);
                             s.to_tokens(&mut self.items_ts); matched = true;
